@@ -14,7 +14,7 @@ RULE = ("generated Solutions: every trajectory kind (PM, ST, KS, KST, MB, Input,
 ANCHORS = ["CommonRoadSolutionWriter.dump", "CommonRoadSolutionWriter._create_sub_element",
            "CommonRoadSolutionReader._parse_state", "CommonRoadSolutionReader._parse_trajectory"]
 REQUIRED = ["kind.PM", "kind.ST", "kind.KS", "kind.KST", "kind.MB", "kind.Input", "kind.PMInput", "xsd.validated",
-            "cooperative", "non-ascending-input", "meta.date.none", "meta.date.micro", "meta.date.cleared", "trajectory-reassigned-with-other-kind", "meta.processor_name",
+            "cooperative", "non-ascending-input", "meta.date.none", "meta.date.micro", "meta.date.cleared", "meta.date.midnight", "trajectory-reassigned-with-other-kind", "meta.processor_name",
             "meta.computation_time", "pretty", "not-pretty", "file-route", "pp-id-reassigned-after-construction"]
 ASSUMPTIONS = ["state values are finite python floats / ints (ints up to 10^6 so that float() is exact)",
                "XSD validation only for documents whose trajectory types the schema defines, generated in schema order"]
